@@ -45,7 +45,11 @@ constexpr auto atanh_check(T const x) noexcept -> T
                                                               // atanh(x) = x + x^3/3 + ...: indistinguishable from x
             etl::numeric_limits<T>::epsilon() > abs(x) ? x
                                                        :
-                                                       // else
+                                                       // small arguments: log((1 + x) / (1 - x)) cancels, use
+                                                       // x + x^3/3 + x^5/5 + x^7/7 + x^9/9 (next term < 1e-21 |x|)
+            T(0.01) > abs(x) ? x * (T(1) + x * x * (T(1) / T(3) + x * x * (T(1) / T(5) + x * x * (T(1) / T(7) + x * x / T(9)))))
+                             :
+                             // else
             atanh_compute(x)
     );
 }
